@@ -460,6 +460,8 @@ func runC05(cx *CheckCtx) {
 	w := cx.W
 	// "the fee values configured in Netmap at that moment": a submitted setting is always stored
 	checkNetmapSetConfigAlways(cx, "fee-config")
+	// the fee transfers move exactly the amount: the legs of balance's transfer helper
+	balanceLegs(cx)
 	m := cx.method("container", "PutNamed")
 	if m == nil {
 		return
@@ -691,6 +693,17 @@ func runC14(cx *CheckCtx) {
 			okEvery, whyEvery := true, ""
 			for _, s := range []*Site{delN, delU, delR, putN, putR} {
 				if ok, why := everyElement(a, s, nil); !ok {
+					okEvery, whyEvery = false, siteDesc(a, s)+": "+why
+				}
+			}
+			// and each loop is reached on every normal path (the REP numbers are written only for a non-nil list)
+			repl := paramTerm(tb, m, "replicas")
+			for _, s := range []*Site{delN, delU, delR, putN, putR} {
+				s := s
+				ok, why := alwaysReached(a, s, func(st *CNF) bool {
+					return s == putR && (a.holdsAt(st, a.litNil(repl)) || a.holdsAt(st, a.litEqC(a.litLen(repl), 0)))
+				})
+				if !ok {
 					okEvery, whyEvery = false, siteDesc(a, s)+": "+why
 				}
 			}
